@@ -85,6 +85,8 @@ def runtime_contract(qualname, args):
         return False, f"documented exception not raised, returned {res!r}"
     if K.ensures is None:
         return True, "no postcondition"
+    if getattr(K.cls, "ghost_run", None) is not None:
+        c._gout = K.cls.ghost_run(*args, res)  # the ghost outputs computed from their definition
     good = bool(K.ensures(c, *args, res))
     if good and K.derived is not None:
         good = bool(K.derived(c, *args, res))
@@ -157,6 +159,11 @@ def domain(sort, quick=True):
         return [(x, y) for x in range(0, 4) for y in range(0, 4)]
     if sort == "Seq":
         return [tuple(t) for n in range(0, 4) for t in itertools.product(range(-1, 3), repeat=n)]
+    if sort == "IntList":
+        # lists of distinct integers (windows of permutations are like that), and short ones with repeats
+        out = [list(t) for n in range(0, 5) for t in itertools.permutations(range(0, 6), n)]
+        out += [list(t) for n in range(2, 4) for t in itertools.product(range(-1, 2), repeat=n)]
+        return out
     raise KeyError(sort)
 
 
@@ -218,11 +225,11 @@ def concretise(qualname, model):
             if not isinstance(v, (tuple, list)) or len(v) != 2:
                 return None
             args.append(tuple(v))
-        elif base == "Seq":
+        elif base in ("Seq", "IntList"):
             v = model.get(name)
             if not isinstance(v, list):
                 return None
-            args.append(tuple(v))
+            args.append(tuple(v) if base == "Seq" else list(v))
         elif base == "none":
             args.append(None)
         elif base.startswith("Perm*"):
